@@ -245,6 +245,10 @@ VARIANTS = [
     {"name": "R3 identity fast path that only checks the deque (evicted injections forgotten)", "file": CIRC, "expect": "C04.R3",
      "old": "        new_id = orig_id + self._injection_base\n",
      "new": "        if not self.injections:\n            return orig_id\n        new_id = orig_id + self._injection_base\n"},
+    {"name": "P R4 fullness asked of a predicate method", "expect": "silent", "edits": [
+        {"file": CIRC, "old": "        if len(self.injections) == self.injections.maxlen:\n", "new": "        if self._window_is_full():\n"},
+        {"file": CIRC, "old": "    def gen_injectable_id(self) -> int:\n",
+         "new": "    def _window_is_full(self):\n        return len(self.injections) == self.injections.maxlen\n\n    def gen_injectable_id(self) -> int:\n"}]},
     # ------------------------------------------------------------------ documented limits
     {"name": "X forward shift boundary < -> <= (value-level)", "file": CIRC, "expect": "miss",
      "old": "if new_id < packet_id and new_id not in self.injections:", "new": "if new_id <= packet_id and new_id not in self.injections:"},
